@@ -480,7 +480,7 @@ def fixOverlapLoop : List Mol → List (List Nat) → (checked : List Nat) → E
       match fixOverlapLoop ss orders.tail (checked ++ s.ids) with
       | .error e => .error e
       | .ok r => .ok (s :: r)
-    else if !(order.all inter.contains && inter.all order.contains && order.length == inter.length) then
+    else if !(order.all inter.contains && inter.all order.contains && decide order.Nodup) then
       .error (.valueError "harness: order is not a permutation of the intersection")
     else
       match remap s (zipCount order (max (maxOf checked) (maxOf s.ids) + 1)) with
@@ -501,7 +501,7 @@ def fixMappingOverlap (structures : List Mol) (orders : List (List Nat)) : Excep
 def collisionRemap (new : Mol) (ignored : List Nat) (order : List Nat) : Except PyErr Mol :=
   let collision := new.ids.filter ignored.contains
   if collision.isEmpty then .ok new
-  else if !(order.all collision.contains && collision.all order.contains && order.length == collision.length) then
+  else if !(order.all collision.contains && collision.all order.contains && decide order.Nodup) then
     .error (.valueError "harness: order is not a permutation of the collision set")
   else remap new (zipCount order (max (maxOf ignored) (maxOf new.ids) + 1))
 
